@@ -83,12 +83,12 @@ theorem serverRecv_spec (segs : Segs) : serverRecv segs = serverParse segs.flatt
 /-- The client's status reader sees only the concatenation of the arrival segments. -/
 theorem clientRecvStatus_spec (segs : Segs) :
     clientRecvStatus segs =
-      ((decodeStatusAll (parseFrames (segs.flatten.length + 1) segs.flatten).1).1,
-        match (decodeStatusAll (parseFrames (segs.flatten.length + 1) segs.flatten).1).2 with
-        | some e => some e
-        | none => (parseFrames (segs.flatten.length + 1) segs.flatten).2) := by
+      ((decodeStatusAll (parseAll noZlib false segs.flatten).1).1,
+        match (decodeStatusAll (parseAll noZlib false segs.flatten).1).2 with
+        | some e => e
+        | none => (parseAll noZlib false segs.flatten).2) := by
   unfold clientRecvStatus
-  simp only [recvFrames_spec]
+  simp only [readAll_spec]
   rfl
 
 /-! ## primitive fields -/
@@ -297,16 +297,21 @@ theorem serverParse_ok (h : Handshake) (ps : List (Nat × Bytes)) (hh : HsOK h)
   simp only [ne_eq, not_true_eq_false, if_false, this]
   rw [parseFrames_frames ps _ hok (by have := frames_length_le ps; omega)]
 
-/-- The client's status reader on a concatenation of well-formed frames. -/
+/-- The client's status reader on a concatenation of well-formed frames: the frames decoded in
+order up to the first `read` that raises; if none does, the run ends with `EOFError` on the
+exhausted stream. -/
 theorem clientRecvStatus_frames (ps : List (Nat × Bytes)) (segs : Segs)
     (hok : ∀ p ∈ ps, FrameOK noZlib none p)
     (hseg : segs.flatten = (ps.map (packetFrame noZlib none)).flatten) :
-    clientRecvStatus segs = decodeStatusAll ps := by
-  rw [clientRecvStatus_spec, hseg,
-    parseFrames_frames ps _ hok (by have := frames_length_le ps; omega)]
+    clientRecvStatus segs = ((decodeStatusAll ps).1, (decodeStatusAll ps).2.getD .eof) := by
+  have hp := parseAll_frames Zlib.ident none ps [] hok
+  rw [List.append_nil, parseAll_nil] at hp
+  simp only [List.append_nil] at hp
+  have hp' : parseAll noZlib false (ps.map (packetFrame noZlib none)).flatten = (ps, .eof) := hp
+  rw [clientRecvStatus_spec, hseg, hp']
   cases h : (decodeStatusAll ps).2 with
-  | none => simp only []; rw [← h]
-  | some e => simp only []; rw [← h]
+  | none => rfl
+  | some e => rfl
 
 theorem decode_response (json : String) (h : StrOK json) :
     decodeClientboundStatus (0, encString json) = .ok (.response json) := by
